@@ -166,7 +166,11 @@ Fixpoint resp_ok (cmds : list qcmd) (rvs : list (option N)) (class : N) : bool :
                   | Some t, Some e => t =? e
                   end in
       if good then resp_ok cs rs class
-      else (class =? 1) && (match cs with [] => true | _ => false end) && (match rs with [] => true | _ => false end)
+      (* an answer that is not the expected one: the operation must end in an error. (As first written this also demanded
+         that such an answer belongs to the LAST request of the operation; the property only says "returns an error for any
+         response that is not the expected success type": a driver that cleans up with further commands after the error
+         answer and then returns the error satisfies it.) *)
+      else (class =? 1) && resp_ok cs rs class
   | _, _ => false
   end.
 
